@@ -31,6 +31,17 @@ var solvers = []solverDef{
 	{"z3-new", func(f string, t, seed int) []string {
 		return []string{"-T:" + itoa((t+999)/1000), "smt.random_seed=" + itoa(seed), f}
 	}, "z3-new"},
+	// z3 5.1.0 under other quantifier/arithmetic strategies: quantified obligations are decided in
+	// well under a second by one configuration and not at all by another, so they are raced.
+	{"z3-new/lra2-nombqi", func(f string, t, seed int) []string {
+		return []string{"-T:" + itoa((t+999)/1000), "smt.random_seed=" + itoa(seed), "smt.arith.solver=2", "smt.mbqi=false", f}
+	}, "z3-new"},
+	{"z3-new/ematch", func(f string, t, seed int) []string {
+		return []string{"-T:" + itoa((t+999)/1000), "smt.random_seed=" + itoa(seed), "smt.mbqi=false", "smt.qi.eager_threshold=100", f}
+	}, "z3-new"},
+	{"z3-new/seed7", func(f string, t, seed int) []string {
+		return []string{"-T:" + itoa((t+999)/1000), "smt.random_seed=" + itoa(seed+7), f}
+	}, "z3-new"},
 	{"cvc5", func(f string, t, seed int) []string {
 		return []string{"--tlimit=" + itoa(t), "--seed=" + itoa(seed), "--produce-models", f}
 	}, "cvc5"},
